@@ -364,7 +364,11 @@ func ruleGetTotal(c *Check, p *Program, rule string) {
 					}
 					// a validator helper: err == nil, where the helper returns nil only under IsValid
 					if a.Kind == "errnil" && a.Val {
-						if call, isC := a.V.(*ssa.Call); isC {
+						av := a.V
+						if ex, isEx := av.(*ssa.Extract); isEx {
+							av = ex.Tuple // the error of a helper that returns (code, error)
+						}
+						if call, isC := av.(*ssa.Call); isC {
 							if f := staticCallee(call); inModule(f) && nilOnlyUnder(f, "IsValid") {
 								ok = true
 							}
@@ -408,10 +412,14 @@ func nilOnlyUnder(f *ssa.Function, pred string) bool {
 	found, ok := false, true
 	allInstrs(f, func(in ssa.Instruction) {
 		r, isR := in.(*ssa.Return)
-		if !isR || len(r.Results) != 1 || !isErrorType(r.Results[0].Type()) {
+		if !isR || len(r.Results) == 0 {
 			return
 		}
-		if !mayBeNilErr(r.Results[0], r.Block()) {
+		ev := r.Results[len(r.Results)-1] // the error is the last result
+		if !isErrorType(ev.Type()) {
+			return
+		}
+		if !mayBeNilErr(ev, r.Block()) {
 			return
 		}
 		found = true
